@@ -87,6 +87,97 @@ ORACLE_OPTIONAL = {"body_mocapid", "body_treeid", "body_jntadr", "body_dofadr", 
                    "geom_matid", "site_matid", "cam_targetbodyid", "light_targetbodyid", "light_texid", "mat_texid", "tendon_matid",
                    "tendon_actuatorid", "tendon_treeid", "jnt_actuatorid", "actuator_actadr", "actuator_ctrladr", "actuator_outadr"}
 
+# object type -> size field (numObjects of engine_io.c, re-stated from the documentation of mjtObj)
+OBJ_SIZE = {"mjOBJ_BODY": "nbody", "mjOBJ_XBODY": "nbody", "mjOBJ_JOINT": "njnt", "mjOBJ_DOF": "nv", "mjOBJ_GEOM": "ngeom",
+            "mjOBJ_SITE": "nsite", "mjOBJ_CAMERA": "ncam", "mjOBJ_LIGHT": "nlight", "mjOBJ_FLEX": "nflex", "mjOBJ_MESH": "nmesh",
+            "mjOBJ_SKIN": "nskin", "mjOBJ_HFIELD": "nhfield", "mjOBJ_TEXTURE": "ntex", "mjOBJ_MATERIAL": "nmat", "mjOBJ_PAIR": "npair",
+            "mjOBJ_EXCLUDE": "nexclude", "mjOBJ_EQUALITY": "neq", "mjOBJ_TENDON": "ntendon", "mjOBJ_ACTUATOR": "nactuator",
+            "mjOBJ_SENSOR": "nsensor", "mjOBJ_NUMERIC": "nnumeric", "mjOBJ_TEXT": "ntext", "mjOBJ_TUPLE": "ntuple", "mjOBJ_KEY": "nkey",
+            "mjOBJ_PLUGIN": "nplugin"}
+
+
+def typed_refs(arrays, ds, E):
+    """cross-references whose target depends on a type field (the hand-written part of mj_validateReferences), re-stated
+    from mjmodel.h: yields (array, element, value, lo, hi, type description); in bounds iff lo <= value < hi.
+    arrays: name -> bytes; ds: size name -> value; E: enumerator name -> value (from the driver)"""
+    def ints(name):
+        raw = arrays.get(name, b"")
+        return struct.unpack("<%di" % (len(raw) // 4), raw[:4 * (len(raw) // 4)])
+    inv = {}
+    for k_, v_ in E.items():
+        inv.setdefault(k_.split("_")[0], {})[v_] = k_
+    out = []
+    trn, tid = ints("actuator_trntype"), ints("actuator_trnid")
+    for i, t in enumerate(trn):
+        if 2 * i + 1 >= len(tid):
+            break
+        tn = inv["mjTRN"].get(t)
+        a, b = tid[2 * i], tid[2 * i + 1]
+        if tn in ("mjTRN_JOINT", "mjTRN_JOINTINPARENT"):
+            out.append(("actuator_trnid", 2 * i, a, 0, ds["njnt"], tn))
+        elif tn == "mjTRN_TENDON":
+            out.append(("actuator_trnid", 2 * i, a, 0, ds["ntendon"], tn))
+        elif tn == "mjTRN_SITE":
+            out.append(("actuator_trnid", 2 * i, a, 0, ds["nsite"], tn))
+            out.append(("actuator_trnid", 2 * i + 1, b, -1, ds["nsite"], tn + " refsite"))
+        elif tn == "mjTRN_SLIDERCRANK":
+            out.append(("actuator_trnid", 2 * i, a, 0, ds["nsite"], tn + " crank site"))
+            out.append(("actuator_trnid", 2 * i + 1, b, 0, ds["nsite"], tn + " slider site"))
+        elif tn == "mjTRN_BODY":
+            out.append(("actuator_trnid", 2 * i, a, 0, ds["nbody"], tn))
+        elif tn == "mjTRN_SO3":
+            if b == -1:
+                out.append(("actuator_trnid", 2 * i, a, 0, ds["njnt"], tn + " joint"))
+            else:
+                out.append(("actuator_trnid", 2 * i, a, 0, ds["nsite"], tn + " site"))
+                out.append(("actuator_trnid", 2 * i + 1, b, 0, ds["nsite"], tn + " refsite"))
+    wt, wo = ints("wrap_type"), ints("wrap_objid")
+    for i, t in enumerate(wt[:len(wo)]):
+        tn = inv["mjWRAP"].get(t)
+        tgt = {"mjWRAP_JOINT": "njnt", "mjWRAP_SITE": "nsite", "mjWRAP_SPHERE": "ngeom", "mjWRAP_CYLINDER": "ngeom"}.get(tn)
+        if tgt:
+            out.append(("wrap_objid", i, wo[i], 0, ds[tgt], tn))
+    et, eo, e1, e2 = ints("eq_type"), ints("eq_objtype"), ints("eq_obj1id"), ints("eq_obj2id")
+    for i, t in enumerate(et[:len(e1)]):
+        tn = inv["mjEQ"].get(t)
+        if tn in ("mjEQ_JOINT", "mjEQ_TENDON"):
+            n = ds["njnt" if tn == "mjEQ_JOINT" else "ntendon"]
+            out.append(("eq_obj1id", i, e1[i], 0, n, tn))
+            out.append(("eq_obj2id", i, e2[i], -1, n, tn))
+        elif tn in ("mjEQ_CONNECT", "mjEQ_WELD"):
+            on = inv["mjOBJ"].get(eo[i])
+            if on in ("mjOBJ_BODY", "mjOBJ_SITE"):
+                n = ds[OBJ_SIZE[on]]
+                out.append(("eq_obj1id", i, e1[i], 0, n, tn + "/" + on))
+                out.append(("eq_obj2id", i, e2[i], 0, n, tn + "/" + on))
+        elif tn in ("mjEQ_FLEX", "mjEQ_FLEXVERT", "mjEQ_FLEXSTRAIN"):
+            out.append(("eq_obj1id", i, e1[i], 0, ds["nflex"], tn))
+    so, si, sr, sri = ints("sensor_objtype"), ints("sensor_objid"), ints("sensor_reftype"), ints("sensor_refid")
+    for i in range(min(len(so), len(si))):
+        on = inv["mjOBJ"].get(so[i])
+        if on in OBJ_SIZE:
+            out.append(("sensor_objid", i, si[i], 0, ds[OBJ_SIZE[on]], on))
+        rn = inv["mjOBJ"].get(sr[i]) if i < len(sr) else None
+        if rn in OBJ_SIZE and i < len(sri):
+            out.append(("sensor_refid", i, sri[i], -1, ds[OBJ_SIZE[rn]], rn))
+    ta, tsz, tt, to = ints("tuple_adr"), ints("tuple_size"), ints("tuple_objtype"), ints("tuple_objid")
+    for i in range(min(len(ta), len(tsz))):
+        for j in range(max(0, tsz[i])):
+            a = ta[i] + j
+            if 0 <= a < min(len(tt), len(to)):
+                on = inv["mjOBJ"].get(tt[a])
+                if on in OBJ_SIZE:
+                    out.append(("tuple_objid", a, to[a], 0, ds[OBJ_SIZE[on]], on))
+    gt, gd = ints("geom_type"), ints("geom_dataid")
+    for i, t in enumerate(gt[:len(gd)]):
+        tn = inv["mjGEOM"].get(t)
+        if tn == "mjGEOM_HFIELD":
+            out.append(("geom_dataid", i, gd[i], -1, ds["nhfield"], tn))
+        elif tn in ("mjGEOM_MESH", "mjGEOM_SDF"):
+            out.append(("geom_dataid", i, gd[i], -1, ds["nmesh"], tn))
+    return out
+
+
 CODEC_WARN = [
     ("Model file has an incomplete header", (1, 0)),
     ("Model missing header ID", (2, 0)),
@@ -240,6 +331,10 @@ def run(ctx):
     lap("coq_props")
     if meta is None:
         return
+    if meta.get("unserialized"):
+        ctx.broken.append(("translator", "mjModel member(s) %s are neither size fields nor written by mj_saveModel / read by "
+                           "mj_loadModelBuffer (struct blocks: %s): a loaded model cannot reproduce them" %
+                           (meta["unserialized"], [f for f, _, _ in meta["structs"]]), ""))
     ctx.cov["support"]["translator"] = {"sizes": len(meta["sizes"]), "arrays": len(meta["arrays"]), "refs": len(meta["refs"]),
                                         "header": meta["hdr"], "structs": meta["structs"], "nmake": meta["nmake"]}
     exe = ctx.driver("c31_mjb", ["c31_mjb.c"])
@@ -258,7 +353,7 @@ def run(ctx):
     for i in range(ngen):
         gens[100 + i] = (rng.randrange(1 << 40), 0x7FFFF if i % 3 == 0 else rng.randrange(0x80000), rng.randrange(1, 8))
     full_ids = list(range(nmodels)) + [100 + i for i in range(12 if thorough else 3)]
-    cmds = "".join("MODEL %d\nDUMP\nOFFS\nRELOAD\n" % k for k in range(nmodels))
+    cmds = "ENUMS\n" + "".join("MODEL %d\nDUMP\nOFFS\nRELOAD\n" % k for k in range(nmodels))
     cmds += "".join("GEN %d %d %d %d\n%sRELOAD\n" % ((g,) + gens[g] + ("DUMP\nOFFS\n" if g in full_ids else "",)) for g in gens)
     rc, out, err = ctx.run(exe, cmds)
     if rc != 0 or "END" not in out:
@@ -266,9 +361,12 @@ def run(ctx):
         return
     models = {}
     cur = None
+    ENUM = {}
     for line in out.split("\n"):
         t = line.split(" ")
-        if t[0] == "M":
+        if t[0] == "E":
+            ENUM[t[1]] = int(t[2])
+        elif t[0] == "M":
             cur = Impl()
             cur.k = int(t[1]); cur.ok = t[2] == "1"; cur.msg = line
             if cur.ok:
@@ -286,7 +384,10 @@ def run(ctx):
         elif t[0] == "O":
             cur.offs.append((int(t[2]), int(t[3]), int(t[4]) if len(t) > 4 else -1))
         elif t[0] == "R":
-            cur.reload = t[1:]
+            parts = line.split(" | ")
+            cur.reload = parts[0].split(" ")[1:]
+            cur.scalars = parts[1].split("=", 1)[1].strip(" ,") if len(parts) > 1 else ""
+            cur.fwd = parts[2].split("=", 1)[1].strip() if len(parts) > 2 else "0"
     model_cases = []
     model_case_ids = []
 
@@ -302,7 +403,17 @@ def run(ctx):
             ctx.violation("impl_violation", mdesc(k), expected="mj_saveModel writes exactly mj_sizeModel bytes",
                           observed="size %d flags=%d (1: wrote past, 2: left bytes unwritten)" % (im.size, im.over), theorem="C31_size",
                           signature={"site": "mj_saveModel"})
-        if im.reload[:5] != ["1", "1", "1", "0", "1"]:
+        fwdval = None
+        try:
+            fwdval = float(im.fwd.split()[0])
+        except (ValueError, IndexError, AttributeError):
+            pass
+        if getattr(im, "scalars", "") or (fwdval is not None and not (abs(fwdval) <= 1e-9)):
+            ctx.violation("impl_violation", mdesc(k),
+                          expected="load(save(m)) identical to m in every non-pointer member of mjModel and in mj_forward's qacc/qfrc_passive/qfrc_constraint",
+                          observed="differing members after save+load: [%s]; mj_forward difference (max abs, or error): %s" % (im.scalars, im.fwd),
+                          theorem="C31_roundtrip", signature={"site": "mj_saveModel", "defect": "member_not_serialized", "member": im.scalars})
+        elif im.reload[:5] != ["1", "1", "1", "0", "1"]:
             ctx.violation("impl_violation", mdesc(k),
                           expected="load(save(m)) accepted, identical in every size/struct/array, re-save byte-identical",
                           observed="accepted same_sizes same_structs arrays_differing resave_identical = %s" % " ".join(im.reload),
@@ -321,6 +432,12 @@ def run(ctx):
                     ctx.violation("impl_violation", dict(mdesc(k), array=name), expected="array occupies %d contiguous bytes of the file" % nb,
                               observed="perturbing it changes %d bytes in [%d,%d]" % (cnt, first, last), theorem="C31_size",
                               signature={"site": "mj_saveModel", "array": name})
+        sd = dict(im.structs)
+        if any(f not in sd for f, _, _ in meta["structs"]):
+            ctx.broken.append(("correspondence", "mj_saveModel writes a block the driver does not dump",
+                               str([f for f, _, _ in meta["structs"] if f not in sd])))
+            return
+        im.structs = [(f, sd[f]) for f, _, _ in meta["structs"]]
         memblob = [b for a in im.arrays for b in a[3]]
         model_cases.append("(%s, %s, [%s], (%s, %s), %d, %d, %s, %s)" % (
             packed(im.file), zl(im.sizes), ";".join(zl(b) for _, b in im.structs), packed(memblob), zl([a[1] for a in im.arrays]), im.size, im.nbuffer,
@@ -512,6 +629,17 @@ Definition check_case (c : Z * Z * list (Z * Z) * list Z * (Z * Z) * Z * Z) : bo
                     e = nel - 1
                 add(k, "ref", patches=setint(first + 4 * e, v, 4), dump=1, fwd=1 if (k >= 2 and (thorough or rng.random() < 0.3)) else 0,
                     info=(name, e, v))
+        # references whose target depends on a type field (actuator_trnid by trntype, wrap_objid, eq_obj*id, sensor_objid/refid,
+        # tuple_objid, geom_dataid): every entry, just outside its range on both sides (fixed corpus for the rich model)
+        base_arr = {a[0]: bytes(a[3]) for a in im.arrays}
+        for (name, e, v, lo, hi, tdesc) in typed_refs(base_arr, dict(zip(sizes_n, im.sizes)), ENUM):
+            ai = aidx.get(name)
+            vals = [hi, lo - 1, hi + 1000000, INT_MAX]
+            if not thorough:
+                vals = vals[:2] if k == 2 else rng.sample(vals, 1)
+            for nv in vals:
+                add(k, "typedref", patches=setint(im.offs[ai][0] + 4 * e, nv, 4), dump=1,
+                    fwd=1 if (k == 2 and thorough) else 0, info=(name, e, nv, tdesc))
         # fixed corpus (both tiers, independent of the seed): -1 in references that have no "none" value
         if k == 2:
             for name, e, fw in (("M_rowadr", 11, 1), ("body_parentid", 3, 0), ("jnt_bodyid", 1, 0), ("geom_bodyid", 2, 0),
@@ -627,6 +755,15 @@ Definition check_case (c : Z * Z * list (Z * Z) * list Z * (Z * Z) * Z * Z) : bo
         if r["kind"] == "A" and i in dumps:
             d = dumps[i]
             ds = dict(zip(sizes_n, d["sizes"]))
+            for (name, e, v, lo, hi, tdesc) in typed_refs(d["arrays"], ds, ENUM):
+                if not (lo <= v < hi):
+                    ctx.violation("impl_violation", dict(case_desc(c), array=name, element=e, value=v, type=tdesc, range=[lo, hi]),
+                                  expected="accepted model has %d <= %s[%d] < %d (%s)" % (lo, name, e, hi, tdesc),
+                                  observed="%s[%d] = %d for %s, accepted without warning" % (name, e, v, tdesc),
+                                  theorem="C31_validate_partial",
+                                  signature={"site": "mj_validateReferences", "defect": "typed_reference_not_validated", "array": name,
+                                             "type": tdesc})
+                    break
             for name, (tgtname, numname) in ORACLE_REFS.items():
                 raw = d["arrays"].get(name, b"")
                 vals = struct.unpack("<%di" % (len(raw) // 4), raw[:4 * (len(raw) // 4)])
